@@ -25,7 +25,9 @@ def dumpChan (k : Str) (c : Chan) : String :=
 def dumpBot (b : Bot) : String :=
   "N=" ++ enc b.nick ++ " P=" ++ enc b.pfx ++ " C=" ++
     " ".intercalate (sortS ((dedup b.channels []).map fun (k, c) => dumpChan k c)) ++ " H=" ++
-    ",".intercalate (sortS ((dedup b.n2h []).map fun (k, v) => enc k ++ "=" ++ enc v))
+    ",".intercalate (sortS ((dedup b.n2h []).map fun (k, v) => enc k ++ "=" ++ enc v)) ++
+    " I=" ++ (match b.isup.chantypes with | none => "~" | some v => "s" ++ encOpt v) ++ "/" ++
+      (match b.isup.channellen with | none => "~" | some none => "n" | some (some n) => toString n)
 
 /-- the projection of the server state the bot's view has to equal -/
 def viewChan (k : Str) (sc : SChan) : String :=
@@ -78,6 +80,7 @@ def decAct : List String → Option Act
   | ["topic", s, c, t] => do pure (.topic (← dec s) (← dec c) (← dec t))
   | ["chghost", n, i, h] => do pure (.chghost (← dec n) (← dec i) (← dec h))
   | ["say", n, t, x] => do pure (.say (← dec n) (← dec t) (← dec x))
+  | ["isupport"] => some .isupport
   | ["names", c] => do pure (.names (← dec c))
   | ["who", c] => do pure (.who (← dec c))
   | ["modeis", c] => do pure (.modeis (← dec c))
@@ -112,16 +115,16 @@ def feedDump (b : Bot) : List Ev → Bot × List String × List Msg
 def defaultCfg : Cfg :=
   { server := "irc.srv".toList, multiPrefix := true, uhnames := false, extJoin := false, chghost := true,
     whox := true, botNick := "test".toList, botIdent := "limnoria".toList, botHost := "bot.host".toList,
-    namesPerLine := 3 }
+    namesPerLine := 3, chantypes := "#&".toList, channellen := "50".toList }
 
 def step (st : DState) : List String → DState × String
-  | ["init", server, mp, uh, ej, ch, wx, n, i, h, npl] =>
-    match dec server, decBool mp, decBool uh, decBool ej, decBool ch, decBool wx, dec n, dec i, dec h, npl.toNat? with
-    | some server, some mp, some uh, some ej, some ch, some wx, some n, some i, some h, some npl =>
-      let cfg : Cfg := ⟨server, mp, uh, ej, ch, wx, n, i, h, npl⟩
+  | ["init", server, mp, uh, ej, ch, wx, n, i, h, npl, ct, cl] =>
+    match dec server, decBool mp, decBool uh, decBool ej, decBool ch, decBool wx, dec n, dec i, dec h, npl.toNat?, dec ct, dec cl with
+    | some server, some mp, some uh, some ej, some ch, some wx, some n, some i, some h, some npl, some ct, some cl =>
+      let cfg : Cfg := ⟨server, mp, uh, ej, ch, wx, n, i, h, npl, ct, cl⟩
       if cfg.valid then (⟨Srv.init cfg, Bot.init n i⟩, "ok " ++ dumpBot (Bot.init n i) ++ "\t" ++ dumpSrv (Srv.init cfg))
       else (st, "bad-cfg")
-    | _, _, _, _, _, _, _, _, _, _ => (st, "bad-op")
+    | _, _, _, _, _, _, _, _, _, _, _, _ => (st, "bad-op")
   | "act" :: rest =>
     match decAct rest with
     | none => (st, "bad-op")
